@@ -47,9 +47,17 @@ pub struct Sc {
     pub circ: HCirc,
     pub strategy: Strategy,
     pub mode: Mode,
+    /// what is at the -o path before the tool runs (cli::precreate): 0 nothing, 1 longer garbage,
+    /// 2 a longer valid program
+    #[serde(default)]
+    pub pre: u8,
 }
 
 pub struct C03;
+
+/// A valid program, repeated to fill a pre-existing output file (its statements would still parse
+/// if they survived behind a shorter result).
+const STALE_PROGRAM: &str = "h q[0];\ncx q[0], q[1];\nrz(0.25*pi) q[1];\n";
 
 fn strategy_args(s: Strategy) -> Vec<String> {
     match s {
@@ -337,7 +345,8 @@ impl Property for C03 {
             }
             _ => Mode::InProcess,
         };
-        Sc { circ, strategy, mode }
+        let pre = if d.coin("pre", 1, 3) { 1 + d.choose("prek", 2) as u8 } else { 0 };
+        Sc { circ, strategy, mode, pre }
     }
 
     fn execute(&self, sc: &Sc, sub: &str, exec: Decider, env: &Env) -> RunOut {
@@ -365,6 +374,10 @@ impl Property for C03 {
             Mode::InProcess => {
                 let input = cli::prepare_input(&scratch, &header, &stmts, &InFault::None);
                 let outp = scratch.path("out.qasm");
+                cli::precreate(&outp, sc.pre, STALE_PROGRAM);
+                if sc.pre > 0 {
+                    out.probe("output_file_preexisting_longer_content");
+                }
                 let mut argv: Vec<String> = vec!["quizx".into(), "opt".into(), input.to_string_lossy().to_string()];
                 argv.extend(strategy_args(sc.strategy));
                 argv.push("-o".into());
@@ -412,6 +425,12 @@ impl Property for C03 {
                 let input = cli::prepare_input(&scratch, &header, &stmts, &InFault::None);
                 let mut tail: Vec<String> = vec!["opt".into(), input.to_string_lossy().to_string()];
                 tail.extend(strategy_args(sc.strategy));
+                if !*to_stdout {
+                    cli::precreate(&scratch.path("out.txt"), sc.pre, STALE_PROGRAM);
+                    if sc.pre > 0 {
+                        out.probe("output_file_preexisting_longer_content");
+                    }
+                }
                 let (res, events) = cli::run_child_sys(&bin, &tail, &scratch, plan, *to_stdout);
                 out.steps += 1 + events.len() as u64;
                 let mut fired = 0;
@@ -532,6 +551,12 @@ impl Property for C03 {
                 let input = cli::prepare_input(&scratch, &header, &stmts, inf);
                 let mut tail: Vec<String> = vec!["opt".into(), input.to_string_lossy().to_string()];
                 tail.extend(strategy_args(sc.strategy));
+                if matches!(outf, OutFault::None | OutFault::Efbig(_)) {
+                    cli::precreate(&scratch.path("out.txt"), sc.pre, STALE_PROGRAM);
+                    if sc.pre > 0 {
+                        out.probe("output_file_preexisting_longer_content");
+                    }
+                }
                 let (res, _p) = cli::run_child(&bin, &tail, &scratch, outf);
                 out.steps += 1;
                 out.fault(inf.name());
@@ -674,6 +699,9 @@ impl Property for C03 {
         }
         if sc.strategy != Strategy::Default {
             c.push(Sc { strategy: Strategy::Default, ..sc.clone() });
+        }
+        if sc.pre != 0 {
+            c.push(Sc { pre: 0, ..sc.clone() });
         }
         if let Mode::ChildSys { plan, to_stdout } = &sc.mode {
             for p in cli::shrink_sysplan(plan) {
